@@ -287,6 +287,59 @@ def sub_bag(case):
     return "bag"
 
 
+def sub_bag_cli(case):
+    """the same export requested through 'evo_traj bag ... --ref ... --save_as_bag' (every trajectory keeps its own frame id)"""
+    import glob
+    from rosbags.rosbag1 import Reader, Writer
+    from vf import cli
+    obj, P, Q, T = build_traj(case, True)
+    if T[0] < 0 or T[-1] >= 2 ** 31:
+        return "skipped_range"
+    d = tempfile.mkdtemp(prefix="c06bagcli_", dir=os.getcwd())
+    src = os.path.join(d, "in.bag")
+    topics = ["/" + case["topic"], "/" + case["topic"] + "_gt", "/other"][: 2 + (1 if case.get("three") else 0)]
+    frames = [case["frame"], case["frame"] + "_ref", "map"]
+    objs = [obj, PoseTrajectory3D(positions_xyz=P[::-1].copy(), orientations_quat_wxyz=Q.copy(), timestamps=T.copy()), obj]
+    w = Writer(src)
+    w.open()
+    try:
+        for tp, fr, ob in zip(topics, frames, objs):
+            file_interface.write_bag_trajectory(w, ob, tp, fr)
+    finally:
+        w.close()
+
+    def read(path, tps):
+        rd = Reader(path)
+        rd.open()
+        try:
+            return {tp: file_interface.read_bag_trajectory(rd, tp) for tp in tps}
+        finally:
+            rd.close()
+    loaded = read(src, topics)
+    outd = os.path.join(d, "out")
+    os.makedirs(outd)
+    ref_topic = topics[1]
+    others = [t for t in topics if t != ref_topic]
+    out = cli.run("traj", ["bag", src] + others + ["--ref", ref_topic, "--save_as_bag", "--no_warnings", "--silent"], cwd=outd)
+    if out.exit_code != 0:
+        raise Mismatch("evo_traj bag --save_as_bag failed: %s" % out.refused, observed="cli_failed", fmt="bag_cli")
+    bags = glob.glob(os.path.join(outd, "*.bag"))
+    if len(bags) != 1:
+        raise Mismatch("evo_traj --save_as_bag wrote %d bag files" % len(bags), observed="no_output", fmt="bag_cli")
+    back = read(bags[0], topics)
+    for tp, fr in zip(topics, frames):
+        a, b = loaded[tp], back[tp]
+        if b.num_poses != a.num_poses or not bits_equal(b.positions_xyz, a.positions_xyz) or not bits_equal(b.orientations_quat_wxyz, a.orientations_quat_wxyz):
+            raise Mismatch("evo_traj bag export: poses of topic %s differ from the loaded ones" % tp, observed="positions", fmt="bag_cli")
+        if b.meta.get("frame_id") != fr:
+            raise Mismatch("evo_traj bag export: topic %s (%s) has frame id %r, the loaded trajectory has %r" % (
+                tp, "reference" if tp == ref_topic else "trajectory", b.meta.get("frame_id"), fr), observed="frame_id", fmt="bag_cli")
+        dt = np.abs(np.asarray(b.timestamps) - np.asarray(a.timestamps))
+        if np.any(dt > 1e-9 + 0.5 * np.spacing(np.asarray(a.timestamps))):
+            raise Mismatch("evo_traj bag export: timestamps of topic %s moved by more than 1 ns" % tp, observed="timestamps", fmt="bag_cli")
+    return "bag_cli/%d" % len(topics)
+
+
 def sub_bulk(case):
     n = int(case["n"])
     rng = gen.bulk_rng(case["seed"])
@@ -344,6 +397,7 @@ SUBS = [
     Sub("dataframe", sub_df, st_traj, 600, 20000, nontrivial=_nt),
     Sub("result", sub_result, st_res, 800, 30000, nontrivial=lambda c: any(_needs_digits(v) for v in c["stats"].values()) or bool(c["trajs"])),
     Sub("bag", sub_bag, st_bag, 200, 6000, nontrivial=_nt),
+    Sub("bag_cli", sub_bag_cli, st_bag, 60, 2000, nontrivial=_nt, shards_quick=4),
     Sub("history", sub_result_history, st.fixed_dictionaries({
         "results": st.lists(st_res, min_size=2, max_size=3), "via": st.sampled_from(["str", "pathlib", "relative"]), "load_trajectories": st.booleans(),
         "trajs": st.lists(st.fixed_dictionaries(dict(_traj_fields)), min_size=2, max_size=3)}), 200, 8000, nontrivial=lambda c: True),
